@@ -204,6 +204,8 @@ def build(pt):
 
 
 def check_point(pt):
+    from ..core import inputs as _inputs
+    _inputs.process_prelude()   # explored in a process that has already read many other files (see core/inputs.py)
     text, abstract, exp = build(pt)
     nontriv = pt["order"] != "WCPOXA" or any(pt["t" + s] != 0 for s in "VWCPOXA") or pt["decoy"] is not None
     size = len(text) + 1000 * pt.get("_dev", 0)
